@@ -1,4 +1,49 @@
-From HP Require Import Base.Prelude Cache.Cache.
-Example C11_smoke : chunked 2 [1;2;3]%N = [[1;2]%N; [3]%N].
-Proof. vm_compute. reflexivity. Qed.
-Print Assumptions C11_smoke.
+(* C11 -- A failed or concurrent cache fill never leaves or serves a partial file.
+   Fault part: proved on the model of Cache/Cache.v for every fault position (any source read, mkdir,
+   create, any write with any number of bytes of its chunk stored, close), every chunk size and both
+   store kinds.  Concurrency part (at most one copy in progress; every successful open complete):
+   the per-path mutex makes the opens of one name sequential, so the sequential theorems apply to
+   whatever order the lock admits them in; that the real lock does serialise them is exercised by the
+   harness (simultaneous copies counted), not proved (* OPEN: C11_mutex_serialises_fills *). *)
+From HP Require Import Base.Prelude Cache.Cache Cache.CacheProofs.
+Open Scope nat_scope.
+
+(* After ANY history of opens with ANY faults, an Open that succeeds serves the complete source bytes. *)
+Theorem C11_never_serves_a_partial_file : forall src retain c can_remove ops ft part n d,
+  0 < c ->
+  snd (copen src retain c can_remove ft part (fst (cruns src retain c can_remove cinit ops)) n) = Served d ->
+  slookup src n = Some (SFile d).
+Proof.
+  intros src retain c can_remove ops ft part n d Hc.
+  apply copen_serves_source; [exact Hc|]. apply cruns_inv; [exact Hc|apply cinv_init].
+Qed.
+Print Assumptions C11_never_serves_a_partial_file.
+
+(* A fill that is hit by a fault reports an error (for a fault that really interrupts it). *)
+Theorem C11_interrupted_fill_reports_an_error : forall src retain c can_remove st n data w nr ft part,
+  slookup src n = Some (SFile data) -> retain n = true ->
+  (if mem_str n (cs_incomplete st) then None else clookup (cs_cache st) n) = None ->
+  mem_str n (cs_info st) = true ->
+  copy_loop (chunked c data) 0 ft part [] = (w, false, nr) ->
+  (match ft with FMkdir | FCreate => False | _ => True end) ->
+  snd (copen src retain c can_remove ft part st n) = OErr.
+Proof.
+  intros src retain c can_remove st n data w nr ft part S R L I CL F.
+  unfold copen. rewrite I, S, L, R. cbn [negb].
+  destruct ft; try contradiction; rewrite CL; cbn [andb]; destruct can_remove; reflexivity.
+Qed.
+Print Assumptions C11_interrupted_fill_reports_an_error.
+
+(* What a failed fill leaves behind is either nothing, or a copy that is marked and never served. *)
+Theorem C11_failed_fill_leaves_nothing_servable : forall src retain c can_remove ft part st n,
+  0 < c -> cinv src st -> cinv src (fst (copen src retain c can_remove ft part st n)).
+Proof. exact copen_inv. Qed.
+Print Assumptions C11_failed_fill_leaves_nothing_servable.
+
+(* Non-vacuity: a write failing mid-chunk on a store that cannot remove, then a clean re-open. *)
+Example C11_nonvacuous :
+  let src := [(S "f", SFile [1;2;3;4;5;6;7]%N)] in
+  let '(st, rs) := cruns src (fun _ => true) 3 false cinit [(S "f", FWrite 1, 2); (S "f", FNone, 0); (S "f", FNone, 0)] in
+  rs = [OErr; Served [1;2;3;4;5;6;7]%N; Served [1;2;3;4;5;6;7]%N].
+Proof. vm_compute. auto. Qed.
+Print Assumptions C11_nonvacuous.
